@@ -569,3 +569,162 @@ Proof.
   exists (utf8_encode (firstn nT (s_text s))), es. rewrite E; cbn [snd]. split; [reflexivity|].
   rewrite compute_length_encode; [exact Hw|]. apply Forall_firstn. destruct R; assumption.
 Qed.
+
+(* ---------- audit round: valid text is returned; when Complete trims; byte-level no-panic ---------- *)
+(* the returned text is valid UTF-8 and the bound is the UTF-16 length of its code points *)
+Theorem complete_within_unicode stale b toks s :
+  Rel stale b toks s ->
+  exists cps es, Forall cp_valid cps /\ snd (b_complete b) = Ok (utf8_encode cps, es) /\
+    Forall (fun e => 0 <= e_off e /\ 0 <= e_len e /\ e_off e + e_len e <= u16c cps) es.
+Proof.
+  intros R. destruct (complete_rel _ _ _ _ R) as [nT [es [E [_ [_ [_ [_ Hw]]]]]]].
+  exists (firstn nT (s_text s)), es. rewrite E; cbn [snd]. split; [|split; [reflexivity|exact Hw]].
+  apply Forall_firstn. destruct R; assumption.
+Qed.
+
+(* WHEN Complete trims: a build whose last operation is Format x tags (x, tags non-empty) returns
+   everything written before x followed by x without its trailing white space ... *)
+Lemma encode_len_eq_trim x : Forall cp_valid x ->
+  len (utf8_encode (trim_cps x)) = len (utf8_encode x) -> trim_cps x = x.
+Proof.
+  intros Hv H. destruct (trim_cps_split x) as [w [Hw _]].
+  rewrite Hw in H at 2. rewrite utf8_encode_app, len_app in H.
+  assert (utf8_encode w = []) as E by (destruct (utf8_encode w); [reflexivity|unfold len in H; cbn [length] in H; lia]).
+  apply (proj1 (utf8_encode_nil_iff w)) in E. rewrite E, app_nil_r in Hw. symmetry; exact Hw.
+Qed.
+
+Theorem complete_after_format stale b toks s x tags :
+  Rel stale b toks s -> Forall cp_valid x -> x <> [] -> tags <> [] ->
+  exists es, snd (b_complete (b_format b (utf8_encode x) tags)) = Ok (utf8_encode (s_text s ++ trim_cps x), es).
+Proof.
+  intros R Hv Hx Ht.
+  assert (utf8_encode x <> []) as Hne by (intros H; apply (proj1 (utf8_encode_nil_iff x)) in H; contradiction).
+  unfold b_format. destruct (utf8_encode x) as [|c0 r0] eqn:Ex; [contradiction|]. rewrite <- Ex.
+  unfold b_complete, b_raw, fix_entities.
+  cbn [b_write b_append_entities b_reset b_msg b_ents b_lens b_lfi b_u16 fst snd].
+  assert (map (fun _ : Z => {| u_off := len (b_msg b); u_len := len (utf8_encode x) |}) tags <> []) as Hm
+    by (destruct tags; [contradiction|discriminate]).
+  replace ((len (b_lens b ++ map (fun _ : Z => {| u_off := len (b_msg b); u_len := len (utf8_encode x) |}) tags) =? 0)
+           || (len (b_ents b) >=? len (b_ents b ++ map (mk_ent (b_u16 b) (compute_length (utf8_encode x))) tags)))
+    with false.
+  2:{ symmetry. apply orb_false_intro.
+      - apply Z.eqb_neq. rewrite len_app, len_map. pose proof (len_nonneg (b_lens b)).
+        destruct tags; [contradiction|]. unfold len at 2; cbn [length]. lia.
+      - rewrite Z.geb_leb. apply Z.leb_gt. rewrite len_app, len_map.
+        destruct tags; [contradiction|]. unfold len at 3; cbn [length]. lia. }
+  cbv zeta. rewrite (last_app_ne _ _ _ Hm).
+  assert (forall (u : uent) (l : list Z), l <> [] -> last (map (fun _ => u) l) {| u_off := 0; u_len := 0 |} = u) as HL.
+  { intros u l. induction l as [|y [|z l] IH]; intros Hl; [contradiction|reflexivity|]. cbn [map last] in *. apply IH; discriminate. }
+  rewrite HL by exact Ht. cbn [u_off u_len].
+  rewrite go_slice_suffix. cbn [bind].
+  rewrite trim_bytes_encode by exact Hv.
+  replace (len (utf8_encode x) >=? len (utf8_encode x)) with true by (symmetry; rewrite Z.geb_leb; apply Z.leb_le; lia).
+  cbn [andb]. rewrite (r_msg _ _ _ _ R).
+  destruct (len (utf8_encode (trim_cps x)) =? len (utf8_encode x)) eqn:E; cbn [negb].
+  - apply Z.eqb_eq in E. rewrite (encode_len_eq_trim x Hv E). cbn [bind fst snd].
+    eexists. rewrite <- utf8_encode_app. reflexivity.
+  - destruct (trim_cps_split x) as [w [Hw _]].
+    assert (utf8_encode (s_text s) ++ utf8_encode x
+            = (utf8_encode (s_text s) ++ utf8_encode (trim_cps x)) ++ utf8_encode w) as ->
+      by (rewrite Hw at 1; rewrite utf8_encode_app, app_assoc; reflexivity).
+    rewrite <- len_app, go_slice_prefix. cbn [bind fst snd].
+    eexists. rewrite <- utf8_encode_app. reflexivity.
+Qed.
+
+(* ... and a build whose last operation is Plain x returns the whole text: nothing is trimmed *)
+Theorem complete_after_plain stale b toks s x :
+  Rel stale b toks s -> Forall cp_valid x ->
+  exists es, snd (b_complete (b_plain b (utf8_encode x))) = Ok (utf8_encode (s_text s ++ x), es).
+Proof.
+  intros R Hv. unfold b_complete, b_raw, fix_entities, b_plain.
+  cbn [b_write b_reset b_msg b_ents b_lens b_lfi b_u16 fst snd].
+  replace (len (b_ents b) >=? len (b_ents b)) with true by (symmetry; rewrite Z.geb_leb; apply Z.leb_le; lia).
+  rewrite orb_true_r. cbn [bind fst snd]. eexists. rewrite (r_msg _ _ _ _ R), <- utf8_encode_app. reflexivity.
+Qed.
+
+(* byte-level invariant that alone rules out the panics of Complete (no Unicode hypothesis) *)
+Definition binv (b : bstate) : Prop :=
+  b_lfi b < len (b_ents b) -> b_lens b <> [] /\ 0 <= u_off (last (b_lens b) dflt_u) <= len (b_msg b).
+
+Lemma strip_prefix_len p : forall r r', strip_prefix p r = Some r' -> (length r' <= length r)%nat.
+Proof. intros r r' H. apply strip_prefix_spec in H. subst. rewrite app_length; lia. Qed.
+Lemma strip_any_len cands : forall r r', strip_any cands r = Some r' -> (length r' <= length r)%nat.
+Proof.
+  induction cands as [|c cs IH]; intros r r' H; cbn [strip_any] in H; [discriminate|].
+  destruct (strip_prefix (rev (utf8_enc c)) r) eqn:E; [inversion H; subst; eapply strip_prefix_len; exact E|apply IH; exact H].
+Qed.
+Lemma trim_rev_bytes_len fuel : forall r, (length (trim_rev_bytes fuel r) <= length r)%nat.
+Proof.
+  induction fuel as [|f IH]; intros r; cbn [trim_rev_bytes]; [lia|].
+  destruct (strip_any space_runes r) eqn:E; [|lia]. apply strip_any_len in E. specialize (IH l). lia.
+Qed.
+Lemma trim_bytes_len s : len (trim_bytes s) <= len s.
+Proof. unfold len, trim_bytes. rewrite rev_length. pose proof (trim_rev_bytes_len (length s) (rev s)). rewrite rev_length in H. lia. Qed.
+
+Lemma go_slice_ok {A} (s : list A) lo hi : 0 <= lo -> lo <= hi -> hi <= len s -> exists r, @go_slice unit A s lo hi = Ok r /\ len r = hi - lo.
+Proof.
+  intros H1 H2 H3. unfold go_slice, len in *.
+  replace ((0 <=? lo) && (lo <=? hi) && (hi <=? Z.of_nat (length s))) with true
+    by (symmetry; repeat (apply andb_true_intro; split); apply Z.leb_le; lia).
+  eexists; split; [reflexivity|]. rewrite firstn_length, skipn_length. lia.
+Qed.
+
+Theorem complete_no_panic b : binv b -> snd (b_complete b) <> Panic.
+Proof.
+  intros H. unfold b_complete, b_raw, fix_entities. cbn [b_reset b_lens b_lfi fst snd].
+  destruct ((len (b_lens b) =? 0) || (b_lfi b >=? len (b_ents b))) eqn:G; [cbn [bind]; discriminate|].
+  apply orb_false_elim in G. destruct G as [_ G]. rewrite Z.geb_leb in G. apply Z.leb_gt in G.
+  destruct (H G) as [_ Hb]. unfold dflt_u in Hb. cbv zeta.
+  set (u := last (b_lens b) {| u_off := 0; u_len := 0 |}) in *.
+  destruct (go_slice_ok (b_msg b) (u_off u) (len (b_msg b))) as [blk [E Hl]]; try lia. rewrite E. cbn [bind].
+  destruct ((u_len u >=? len blk) && negb (len (trim_bytes blk) =? len blk)); [|cbn [bind]; discriminate].
+  pose proof (trim_bytes_len blk). pose proof (len_nonneg (trim_bytes blk)).
+  destruct (go_slice_ok (b_msg b) 0 (u_off u + len (trim_bytes blk))) as [m' [E' _]]; try lia.
+  rewrite E'. cbn [bind]. discriminate.
+Qed.
+
+Lemma binv_shrink b : binv b -> binv (b_shrink b).
+Proof.
+  unfold binv; cbn [b_shrink b_lfi b_ents b_lens b_msg]. intros H G. apply H.
+  pose proof (shrink_length (b_ents b)). unfold len in *. lia.
+Qed.
+Lemma binv_grow b b' : binv b -> b_ents b' = b_ents b -> b_lens b' = b_lens b -> b_lfi b' = b_lfi b ->
+  len (b_msg b) <= len (b_msg b') -> binv b'.
+Proof. unfold binv. intros H -> -> -> Hm G. destruct (H G) as [H1 H2]. split; [exact H1|lia]. Qed.
+Lemma binv_apply b tk tags : 0 <= t_u8 tk <= len (b_msg b) -> binv (b_apply b tk tags).
+Proof.
+  intros Hk. unfold binv, b_apply, b_append_entities; cbn [b_lfi b_ents b_lens b_msg].
+  rewrite len_app, len_map. intros G.
+  assert (tags <> []) as Hne by (destruct tags; [cbn in G; lia|discriminate]).
+  set (u := {| u_off := t_u8 tk; u_len := len (b_msg b) - t_u8 tk |}).
+  assert (map (fun _ : Z => u) tags <> []) as Hm by (destruct tags; [contradiction|discriminate]).
+  split; [destruct (b_lens b); [exact Hm|discriminate]|].
+  rewrite (last_app_ne _ _ _ Hm).
+  assert (forall l : list Z, l <> [] -> last (map (fun _ => u) l) dflt_u = u) as HL.
+  { induction l as [|y [|z l] IH]; intros Hl; [contradiction|reflexivity|]. cbn [map last] in *. apply IH; discriminate. }
+  rewrite HL by exact Hne. exact Hk.
+Qed.
+Lemma binv_init : binv b_init.
+Proof. unfold binv; cbn. lia. Qed.
+
+Theorem build_trims_after_format m ops x tags :
+  fresh (m_b m) -> build_ok s_init ops -> Forall cp_valid x -> x <> [] -> tags <> [] ->
+  exists es, snd (exec m (map (enc_uop (length (m_toks m))) (ops ++ [UFormat x tags]) ++ [OComplete]))
+             = [Ok (utf8_encode (s_text (srun ops) ++ trim_cps x), es)].
+Proof.
+  intros Hf Hok Hv Hx Ht. destruct (exec_rel (m_toks m) ops m s_init (rel_init m Hf) Hok) as [m1 [E1 R1]].
+  destruct (complete_after_format _ _ _ _ x tags R1 Hv Hx Ht) as [es E]. exists es.
+  rewrite map_app, <- app_assoc, (exec_app_silent _ _ _ _ E1). cbn [map app enc_uop exec step with_b m_b].
+  destruct (b_complete (b_format (m_b m1) (utf8_encode x) tags)) as [b' r] eqn:Ec. cbn [snd] in E. rewrite E. reflexivity.
+Qed.
+
+Theorem build_keeps_after_plain m ops x :
+  fresh (m_b m) -> build_ok s_init ops -> Forall cp_valid x ->
+  exists es, snd (exec m (map (enc_uop (length (m_toks m))) (ops ++ [UPlain x]) ++ [OComplete]))
+             = [Ok (utf8_encode (s_text (srun ops) ++ x), es)].
+Proof.
+  intros Hf Hok Hv. destruct (exec_rel (m_toks m) ops m s_init (rel_init m Hf) Hok) as [m1 [E1 R1]].
+  destruct (complete_after_plain _ _ _ _ x R1 Hv) as [es E]. exists es.
+  rewrite map_app, <- app_assoc, (exec_app_silent _ _ _ _ E1). cbn [map app enc_uop exec step with_b m_b].
+  destruct (b_complete (b_plain (m_b m1) (utf8_encode x))) as [b' r] eqn:Ec. cbn [snd] in E. rewrite E. reflexivity.
+Qed.
